@@ -1814,7 +1814,7 @@ func BaselineKeys(p *Prog) []string {
 	for k, f := range p.Funcs {
 		out = append(out, k)
 		if f.Obj != nil {
-			out = append(out, "sig\t"+k+"\t"+SigString(f.Obj))
+			out = append(out, "sig\t"+k+"\t"+SigString(f.Obj)+"\t"+strings.Join(calleeFingerprint(f), ","))
 		}
 		if f.Decl.Body == nil {
 			continue
@@ -1907,22 +1907,42 @@ func SigString(fn *types.Func) string {
 // key - rules name their anchors by that key - and is not inlined.
 func (p *Prog) applyRenames(baseline map[string]bool) []string {
 	sigs := map[string]string{}
+	prints := map[string][]string{}
 	for k := range baseline {
 		if strings.HasPrefix(k, "sig\t") {
-			parts := strings.SplitN(k, "\t", 3)
-			if len(parts) == 3 {
+			parts := strings.Split(k, "\t")
+			if len(parts) >= 3 {
 				sigs[parts[1]] = parts[2]
+			}
+			if len(parts) >= 4 && parts[3] != "" {
+				prints[parts[1]] = strings.Split(parts[3], ",")
 			}
 		}
 	}
 	if len(sigs) == 0 {
 		return nil
 	}
-	owner := func(key string) string { // package + receiver
+	owner := func(key string) string { // package + receiver type (a value receiver may have become a pointer receiver)
 		if i := strings.LastIndex(key, "."); i >= 0 {
-			return key[:i]
+			key = key[:i]
 		}
-		return key
+		return strings.Replace(key, ".(*", ".(", 1)
+	}
+	similarity := func(a, b []string) float64 {
+		if len(a) == 0 && len(b) == 0 {
+			return 0
+		}
+		set := map[string]bool{}
+		for _, x := range a {
+			set[x] = true
+		}
+		inter := 0
+		for _, x := range b {
+			if set[x] {
+				inter++
+			}
+		}
+		return float64(inter) / float64(len(a)+len(b)-inter)
 	}
 	type cand struct{ key, owner, sig string }
 	var missing, added []cand
@@ -1937,10 +1957,13 @@ func (p *Prog) applyRenames(baseline map[string]bool) []string {
 		}
 	}
 	var out []string
+	taken := map[string]bool{}
+	sort.Slice(missing, func(i, j int) bool { return missing[i].key < missing[j].key })
+	sort.Slice(added, func(i, j int) bool { return added[i].key < added[j].key })
 	for _, m := range missing {
 		var match []cand
 		for _, a := range added {
-			if a.owner == m.owner && a.sig == m.sig {
+			if a.owner == m.owner && a.sig == m.sig && !taken[a.key] {
 				match = append(match, a)
 			}
 		}
@@ -1950,9 +1973,38 @@ func (p *Prog) applyRenames(baseline map[string]bool) []string {
 				rivals++
 			}
 		}
-		if len(match) != 1 || rivals != 1 {
+		if len(match) == 0 {
 			continue
 		}
+		if len(match) != 1 || rivals != 1 {
+			// several functions of that shape were renamed at once: tell them apart by what they call (the set of
+			// callees outside the package recorded for the reference tree); the best candidate must be clearly
+			// better than the second one and must not suit another missing function better
+			best, second := -1.0, -1.0
+			bi := -1
+			for i, a := range match {
+				sc := similarity(prints[m.key], calleeFingerprint(p.Funcs[a.key]))
+				if sc > best {
+					best, second, bi = sc, best, i
+				} else if sc > second {
+					second = sc
+				}
+			}
+			if bi < 0 || best < 0.5 || best-second < 0.2 {
+				continue
+			}
+			better := false
+			for _, m2 := range missing {
+				if m2.key != m.key && m2.owner == m.owner && m2.sig == m.sig && similarity(prints[m2.key], calleeFingerprint(p.Funcs[match[bi].key])) > best {
+					better = true
+				}
+			}
+			if better {
+				continue
+			}
+			match = []cand{match[bi]}
+		}
+		taken[match[0].key] = true
 		f := p.Funcs[match[0].key]
 		if f == nil {
 			continue
@@ -1961,6 +2013,39 @@ func (p *Prog) applyRenames(baseline map[string]bool) []string {
 		f.Key = m.key
 		p.Funcs[m.key] = f
 		out = append(out, m.key+" -> "+match[0].key)
+	}
+	sort.Strings(out)
+	return out
+}
+
+// calleeFingerprint lists (sorted, without duplicates) the functions of other packages that f calls, as
+// "pkgpath.Name" or "pkgpath.Type.Name": a cheap description of what a function does that survives renaming the
+// function and its locals.
+func calleeFingerprint(f *Func) []string {
+	if f == nil || f.Decl.Body == nil {
+		return nil
+	}
+	info := f.Pkg.TypesInfo
+	set := map[string]bool{}
+	ast.Inspect(f.Decl.Body, func(n ast.Node) bool {
+		call, ok := n.(*ast.CallExpr)
+		if !ok {
+			return true
+		}
+		fn, isF := CalleeOf(info, call).(*types.Func)
+		if !isF || fn.Pkg() == nil || fn.Pkg() == f.Pkg.Types {
+			return true
+		}
+		name := fn.Pkg().Path() + "."
+		if rn := RecvNamed(fn); rn != nil {
+			name += rn.Obj().Name() + "."
+		}
+		set[name+fn.Name()] = true
+		return true
+	})
+	var out []string
+	for k := range set {
+		out = append(out, k)
 	}
 	sort.Strings(out)
 	return out
